@@ -156,6 +156,16 @@ func (s *Server) writeAOF(args []string, d *commandDetails) error {
 	if s.shrinking {
 		nargs := make([]string, len(args))
 		copy(nargs, args)
+		if d != nil && d.obj != nil && len(args) > 0 {
+			switch strings.ToLower(args[0]) {
+			case "jset", "jdel":
+				// These may be relative to the document (append to an array,
+				// delete by index). The rewritten log may already hold the
+				// object with the change applied, and this command is
+				// replayed on top of it: log the outcome instead.
+				nargs = appendSetCommand(nil, d.key, d.obj, time.Now().UnixNano())
+			}
+		}
 		s.shrinklog = append(s.shrinklog, nargs)
 	}
 
